@@ -730,6 +730,97 @@ def replay_refs(workdir, cxs=()):
     return bool(failed), {'failed_probes': failed}
 
 
+LOOKUPS = ['get_by_id', 'get_property', 'get_public_method', 'get_type']
+
+
+def lookup_order_obligations(fns, consts):
+    """which declaration a bare name denotes inside an object (ObjectContext::get_ref): an object id first"""
+    ob = O._ob('c10_mir_name_lookup_order', 'uigen::context::ObjectContext::get_ref',
+               'all 16 combinations of "found / not found" for the four lookups (symbolic results; lookups themselves uninterpreted)',
+               'a name that is an object id denotes that object, whatever else carries the name; only then the implicit this.<property>, this.<method>, and type names, in that order; none iff nothing is found')
+    t0 = time.time()
+    bad = []
+    try:
+        cands = [f for n, f in fns.items() if n.endswith('::get_ref') and 'uigen/context.rs' in n]
+        if len(cands) != 1:
+            raise M.MirError(f'{len(cands)} MIR bodies for ObjectContext::get_ref')
+        found = {k: z3.Bool('found_' + k) for k in LOOKUPS}
+
+        def model(c, it, p):
+            last = c.callee.split('::')[-1]
+            if last in LOOKUPS:
+                if not hasattr(p, 'heap'):
+                    p.heap = {}
+                p.heap['#lookups'] = p.heap.get('#lookups', ()) + (last,)
+                return M.Fork([([found[last]], None, M.Adt('Option::Some', [M.Opaque('result_of_' + last)])),
+                               ([z3.Not(found[last])], None, M.Adt('Option::None', []))])
+            return None
+        it = M.Interp(cands[0], consts, call_model=model)
+        paths = [q for q in it.run() if q.end == 'return']
+        cover = []
+        for q in paths:
+            seq = getattr(q, 'heap', {}).get('#lookups', ())
+            cover.append(z3.And(q.pc) if q.pc else z3.BoolVal(True))
+            if list(seq) != LOOKUPS[:len(seq)]:
+                bad.append(f'the lookups are made in the order {list(seq)}, documented: {LOOKUPS}')
+                continue
+            s_ = z3.Solver()
+            s_.add(*q.pc)
+            if s_.check() != z3.sat:
+                continue
+            m_ = s_.model()
+            hit = [k for k in seq if z3.is_true(m_.eval(found[k], model_completion=True))]
+            text = _canon(q.ret)
+            if not hit:
+                if len(seq) != len(LOOKUPS) or 'None' not in text:
+                    bad.append(f'nothing found after {list(seq)} but the result is {text[:80]}')
+                continue
+            if hit[0] != seq[-1]:
+                bad.append(f'{hit[0]} finds the name but the search goes on to {seq[-1]}')
+            if ('result_of_' + seq[-1]) not in text and not (seq[-1] == 'get_by_id' and 'RefKind::Object' in text):
+                bad.append(f'found by {seq[-1]} but the result is {text[:100]}')
+        O._unsat([z3.Not(z3.Or(cover))] if cover else [z3.BoolVal(True)], bad, 'some combination has no returning path')
+    except M.MirError as e:
+        O._finish(ob, t0, ['MIR: ' + str(e)], unknown=True)
+        ob['detail'] = 'MIR: ' + str(e)
+        return [ob]
+    O._finish(ob, t0, bad)
+    return [ob]
+
+
+def _canon(v, d=0):
+    if d > 12:
+        return '..'
+    if isinstance(v, M.Ref):
+        return '&' + _canon(v.target, d + 1)
+    if isinstance(v, M.Call):
+        return v.callee.split('::')[-1] + '(' + ', '.join(_canon(x, d + 1) for x in v.args) + ')'
+    if isinstance(v, M.Opaque):
+        return v.name
+    if isinstance(v, M.Tup):
+        return '(' + ', '.join(_canon(x, d + 1) for x in v.items) + ')'
+    if isinstance(v, M.Adt):
+        return v.path + '[' + ', '.join(_canon(x, d + 1) for x in v.fields) + ']'
+    return str(v)
+
+
+def replay_lookup_order(workdir):
+    from ..tv import driver as D
+    os.makedirs(workdir, exist_ok=True)
+    failed = []
+    cases = [('id-vs-property', 'QLabel { id: lab; onLinkActivated: buddy.setFocus() }\n  QLineEdit { id: buddy }', 'this->ui_->buddy->setFocus()'),
+             ('id-vs-property-operand', 'QLineEdit { id: toolTip; text: "x" }\n  QLineEdit { id: dst; text: toolTip.text }', 'this->ui_->toolTip->text()'),
+             ('id-vs-method', 'QPushButton { id: btn; onClicked: click.setFocus() }\n  QLineEdit { id: click }', 'this->ui_->click->setFocus()')]
+    for name, body, want in cases:
+        text = f'import qmluic.QtWidgets\nQWidget {{\n id: top\n QVBoxLayout {{\n  {body}\n }}\n}}\n'
+        r = D.run_cli(C.build_native(), workdir, text, 'Lookup' + re.sub(r'\W', '', name.title()))
+        if r.rc != 0 or not r.header or want not in r.header:
+            failed.append({'probe': name, 'document': text, 'expected_in_header': want, 'rc': r.rc, 'stderr': r.stderr[:200]})
+    with open(os.path.join(workdir, 'README.txt'), 'w') as f:
+        f.write('qmluic generate-ui --foreign-types /repo/contrib/metatypes Lookup*.qml\n' + json.dumps(failed, indent=1) + '\n')
+    return bool(failed), {'failed_probes': failed}
+
+
 def _doc(eng, model, final, pattern):
     """the object sequence of a counterexample: [('id', text) | ('anon', prefix)], plus the predicted names"""
     if model is None:
@@ -846,6 +937,11 @@ def run(res, args):
         rep, info = replay_refs(d, ob.get('counterexamples') or ())
         return rep, info, {'site': 'format_named_object_ref', 'probe': info['failed_probes'][0].get('missing', 'rejected') if info['failed_probes'] else None}
     O.merge(res, ref_obligations(fns, consts), res.coverage, replay_ref, 'refs')
+
+    def replay_lookup(ob, d):
+        rep, info = replay_lookup_order(d)
+        return rep, info, {'site': 'ObjectContext::get_ref', 'probe': info['failed_probes'][0]['probe'] if info['failed_probes'] else None}
+    O.merge(res, lookup_order_obligations(fns, consts), res.coverage, replay_lookup, 'lookup order')
     res.coverage['samples'] = res.coverage['samples'][:12] + res.coverage['samples'][-6:]
     res.assumptions += [
         'C10 engine C: library calls are models, not code: HashMap/HashSet as (key set, values, len) over SMT arrays, find_map = least index with Some, format!/Display as string concatenation / int.to.str, String conversions as identity, Iterator::filter/next as "nodes in order that satisfy the inlined closure"',
